@@ -358,8 +358,7 @@ def ch_loops(ctx) -> Channel:
     # R = 0: the assertion (pure, under an alarm)
     ch.evaluations += 1
     lay = segpure.Layout(ts=1, durs=[10, 10], ref_dur=1, ref_ts=90000, ref_sd=1, ref_n=2)
-    old = signal.signal(signal.SIGALRM, c16_http._alarm)
-    signal.setitimer(signal.ITIMER_REAL, 10)
+    old = c16_http.arm(10)
     try:
         try:
             _, rep, _ = segpure.make_objects(lay, "vod")
@@ -370,8 +369,7 @@ def ch_loops(ctx) -> Channel:
         except Exception as e:
             real = f"raise:{type(e).__name__}"
     finally:
-        signal.setitimer(signal.ITIMER_REAL, 0)
-        signal.signal(signal.SIGALRM, old)
+        c16_http.disarm(old)
     ch.count(f"witness:R=0:{real}")
     model = common.run_driver(["c16gsi 10,10 0 100 1000"])[0]
     if real == "running":
@@ -582,8 +580,7 @@ class HttpFuzz:
     def run_body(self, method, url, who, headers, body):
         H = self.H
         del H._LAST_EXC[:]
-        old = signal.signal(signal.SIGALRM, H._alarm)
-        signal.setitimer(signal.ITIMER_REAL, H.TIME_LIMIT)
+        old = H.arm(H.TIME_LIMIT)
         t0 = time.perf_counter()
         kw = dict(body[1])
         if "data" in kw and isinstance(kw["data"], dict) and "file" in kw["data"]:
@@ -601,8 +598,7 @@ class HttpFuzz:
             status, to = H.CLIENT_ERROR, False
             H._LAST_EXC.append((type(e).__name__, "client", str(e)[:160]))
         finally:
-            signal.setitimer(signal.ITIMER_REAL, 0)
-            signal.signal(signal.SIGALRM, old)
+            H.disarm(old)
         return H.Result(status, time.perf_counter() - t0, H._LAST_EXC[-1] if H._LAST_EXC else None, to)
 
     REGRESSIONS = [
